@@ -245,7 +245,15 @@ impl Engine for TraceEngine {
             vec![format!("trc compile {} expect={}", module_tok(&m), planted)]
         } else {
             let (m, planted, chain) = gen_case(rng);
-            vec![format!("trc run {} budget=2000 expect={} chain={}", module_tok(&m), planted, chain)]
+            // one time in three the machine has already run another failing program (no clear in
+            // between): the trace of the measured run must not depend on it
+            let prev = if rng.chance(1, 3) {
+                let (pm, _, _) = gen_case(rng);
+                format!(" prev={}", module_tok(&pm))
+            } else {
+                String::new()
+            };
+            vec![format!("trc run {} budget=2000 expect={} chain={}{}", module_tok(&m), planted, chain, prev)]
         }
     }
 
@@ -260,6 +268,11 @@ impl Engine for TraceEngine {
                         Ok(prog) => {
                             let mut vm = new_vm(409600, 256, 256);
                             vm.max_instr = rest.iter().find_map(|x| x.strip_prefix("budget=")).and_then(|v| v.parse().ok()).unwrap_or(1000);
+                            // an earlier (failing) run on the same machine, not cleared
+                            let prev = rest.iter().find_map(|x| x.strip_prefix("prev=")).and_then(parse_module).and_then(|pm| compile(pm, None).ok());
+                            if let Some(pp) = &prev {
+                                let _ = vm.run(pp);
+                            }
                             match vm.run(&prog) {
                                 Ok(()) => "ok".into(),
                                 Err(e) => format!("err:{} cards=[{}]", err_kind(&e.payload), e.trace.iter().map(|t| resolve(&module, t)).collect::<Vec<_>>().join(" ; ")),
